@@ -27,6 +27,7 @@ EXPLANATION = (
     'is the stored identity. C19.R6 (constant tables): the name and unit regular expressions, parsed into (first class, rest '
     'class, bounds) normal form with exhaustive byte sets, equal the documented grammar (letter, then up to 254 of letters digits '
     '_ . - /; unit: up to 63 ASCII characters).')
+EXPLANATION += " The shared rule C07.R5 (the view's aggregation config reaches every CreateAggregation call of a storage) is evaluated."
 NOT_DECIDED = 'that std::regex implements the parsed normal form; pattern predicates supplied by users; attribute equality of scopes.'
 
 CREATE_TABLE = {
